@@ -51,11 +51,13 @@ pub struct Key {
     pub project: String,
     /// rel | abs  (spelling of the output path)
     pub out_form: String,
+    /// the faulty run is made with --force (CLI path only)
+    pub forced_fault: bool,
 }
 
 impl Key {
     pub fn to_json(&self) -> Value {
-        json!({"fault": self.fault, "target": self.target, "phase": self.phase, "revert": self.revert, "path": self.path, "mode": self.mode, "viz": self.viz, "project": self.project, "out_form": self.out_form})
+        json!({"fault": self.fault, "target": self.target, "phase": self.phase, "revert": self.revert, "path": self.path, "mode": self.mode, "viz": self.viz, "project": self.project, "out_form": self.out_form, "forced_fault": self.forced_fault})
     }
     pub fn from_json(v: &Value) -> Option<Key> {
         Some(Key {
@@ -68,6 +70,7 @@ impl Key {
             viz: v["viz"].as_bool()?,
             project: v["project"].as_str().unwrap_or("base").to_string(),
             out_form: v["out_form"].as_str().unwrap_or("rel").to_string(),
+            forced_fault: v["forced_fault"].as_bool().unwrap_or(false),
         })
     }
     fn phase_tag(&self) -> String {
@@ -87,6 +90,7 @@ impl Key {
             format!("viz={}", self.viz),
             format!("project={}", self.project),
             format!("out_form={}", self.out_form),
+            format!("faulty_run={}", if self.forced_fault { "forced" } else { "non_forced" }),
         ]
     }
 }
@@ -124,7 +128,15 @@ pub fn grid(revert: bool, projects: &[&str], out_forms: &[&str]) -> Vec<Key> {
                                     viz: *viz,
                                     project: project.to_string(),
                                     out_form: out_form.to_string(),
+                                    forced_fault: false,
                                 });
+                                // a forced run that fails part-way must not leave the old record
+                                // behind either (CLI path, after an edit)
+                                if revert && path == "cli" {
+                                    let mut k = keys.last().unwrap().clone();
+                                    k.forced_fault = true;
+                                    keys.push(k);
+                                }
                             }
                         }
                     }
@@ -222,9 +234,13 @@ struct RunObs {
 
 /// one non-forced run through the path under test
 fn run_tool(key: &Key, sb: &Sb) -> RunObs {
+    run_tool_with(key, sb, false)
+}
+
+fn run_tool_with(key: &Key, sb: &Sb, force: bool) -> RunObs {
     let before = if sb.out.is_dir() { sandbox::snapshot(&sb.out) } else { Default::default() };
     let out = if key.path == "cli" {
-        let args = cli_args(key, &sb.out_spelled, false);
+        let args = cli_args(key, &sb.out_spelled, force);
         let argv: Vec<&str> = args.iter().map(|s| s.as_str()).collect();
         tool::run_cli(&argv, &sb.src_tauri)
     } else {
@@ -382,8 +398,11 @@ pub fn eval_key(key: &Key, stats: &mut Stats) -> Vec<Failure> {
     };
     place_obstacle(key, &sb);
     steps.push(json!({"step": "obstacle placed", "fault": key.fault, "target": key.target, "output_dir_listing": listing(&sb.root.join("src"))}));
-    let faulty = run_tool(key, &sb);
+    let cache_path = sb.out.join(".typecache");
+    let cache_before: Option<Vec<u8>> = if std::fs::symlink_metadata(&cache_path).map(|m| m.file_type().is_file()).unwrap_or(false) { std::fs::read(&cache_path).ok() } else { None };
+    let faulty = run_tool_with(key, &sb, key.forced_fault);
     let cache_after_fault = sb.out.join(".typecache").is_file();
+    let cache_after: Option<Vec<u8>> = if std::fs::symlink_metadata(&cache_path).map(|m| m.file_type().is_file()).unwrap_or(false) { std::fs::read(&cache_path).ok() } else { None };
     let past_first_write = faulty.written.iter().any(|w| w == "types.ts");
     steps.push(json!({"step": "faulty run (non-forced)", "command": cmd, "result": proc_json(&faulty.out, &sb.root), "written": faulty.written, "answered_up_to_date": faulty.skipped, "typecache_file_present_afterwards": cache_after_fault, "output_dir_listing": listing(&sb.root.join("src"))}));
     if past_first_write {
@@ -425,6 +444,26 @@ pub fn eval_key(key: &Key, stats: &mut Stats) -> Vec<Failure> {
             "steps": steps,
         }))
     };
+    if faulty_failed && key.target != ".typecache" {
+        // "does not record the run as current" / "at no point is the cache record newer than the
+        // files it vouches for": a run that fails must not write a cache record, and must not keep
+        // one once it has started rewriting files
+        if cache_after.is_some() && cache_after != cache_before {
+            fails.push(mk(
+                "cache_written_by_failed_run",
+                format!("the run exited {:?} but wrote a new .typecache ({} bytes)", faulty.out.status, cache_after.as_ref().map_or(0, |c| c.len())),
+                "a run that fails part-way does not record itself as current".into(),
+                &steps,
+            ).tag("step=faulty"));
+        } else if cache_after.is_some() && past_first_write {
+            fails.push(mk(
+                "old_cache_kept_over_rewritten_files",
+                "the run rewrote types.ts, then failed, and the previous .typecache is still in place".into(),
+                "at no point is the cache record newer or older than the files it vouches for: the record is dropped once files are rewritten".into(),
+                &steps,
+            ).tag("step=faulty"));
+        }
+    }
     if !faulty_failed {
         if faulty.skipped {
             // the run never attempted the write; only the invariant applies
